@@ -26,6 +26,8 @@ type EnvOpt struct {
 	Mode     string // "", "race", "asan"
 	Topo     func(cl *Cluster) *Topo
 	NoWait   bool
+	// SeedReplicas: the proxy's configured servers are replica addresses of the topology
+	SeedReplicas bool
 }
 
 var (
@@ -113,6 +115,14 @@ func NewEnv(opt EnvOpt) (*Env, error) {
 	dir := filepath.Join(TmpRoot(), fmt.Sprintf("env%d", envSeq))
 	envSeqMu.Unlock()
 	cfg := opt.Cfg
+	if opt.SeedReplicas {
+		cfg.Servers = nil
+		for _, tn := range t.Nodes {
+			if !tn.Master && tn.Node != nil && !tn.Node.Loading && len(cfg.Servers) < 3 {
+				cfg.Servers = append(cfg.Servers, tn.Addr)
+			}
+		}
+	}
 	if len(cfg.Servers) == 0 {
 		for i := 0; i < opt.Masters && i < 3; i++ {
 			cfg.Servers = append(cfg.Servers, cl.Nodes[i].Addr)
